@@ -32,6 +32,9 @@ def canon_ref_node(n):
 def impl_root(r):
     """r = {"k": int | None, "K": sec hex (pub roots), "chain": hex, "depth","index","pfp"}"""
     from btc_hd_wallet.bip32 import PrvKeyNode, PubKeyNode
+    if r.get("parsed"):
+        cls = PubKeyNode if r.get("pub") else PrvKeyNode
+        return cls.parse(root_xkey(r), testnet=r.get("testnet", False))
     kw = dict(chain_code=bytes.fromhex(r["chain"]), index=r.get("index", 0), depth=r.get("depth", 0),
               testnet=r.get("testnet", False))
     if r.get("pfp"):
